@@ -728,9 +728,29 @@ def c15(ctx):
             cmds += pre + ["fault %d %d" % (a, b), line, line]     # the faulty call, then the same call again
             points += 1
     ev2 = ctx.run_xcv(cmds)
+    # pass 3: the environment in which MAP_HUGETLB requests are granted (the sandbox has no huge pages): regions above
+    # the 32 MiB threshold, sizes that are and are not multiples of 2 MiB, alone and with each request failing in turn
+    cmds = ["obj 0 0 1", "hugeok 1"]
+    big = [("crypt_rn 0 %s %s 32768", b"hugepages", "$y$jC5$abcd"), ("crypt_r 0 %s %s", b"hugepages", "$y$jD5$abcd"),
+           ("crypt_rn 0 %s %s 32768", b"hugepages", "$7$C6..../....abcd"), ("crypt_ra 0 %s %s", b"hugepages", "$gy$jC5$abcd")]
+    for (fn, ph, s) in (big[:2] if quick else big):
+        line = fn % (hx(ph), hx(s))
+        pre = ["hset 0 0 0"] if fn.startswith("crypt_ra") else []
+        cmds += pre + [line]
+        for k in (1, 2, 3):
+            cmds += pre + ["fault %d" % k, line, line]
+    cmds.append("hugeok 0")
+    ev3 = ctx.run_xcv(cmds)
+    nhuge = sum(1 for e in ev3 if any(l.get("op") == "H" and not l.get("failed") for l in e.get("led", [])))
+    if not nhuge:
+        raise Broken("no huge-page mapping was granted in the huge-page pass")
     v1 = judge(ctx, ev1, "nofault", cfgev)
-    v2 = judge(ctx, ev2, "faults", cfgev)
+    v2 = judge(ctx, ev2 + [{"e": "Reset"}] + ev3, "faults", cfgev)
     attribute(ctx)
+    # "without crashing": a call that dies under an injected allocator/mapping failure
+    for (p_, what, payload) in list(ctx.violations):
+        if p_ == "C04" and what.startswith("Fault"):
+            ctx.violations.append(("C15", "the call crashed under an allocation/mapping failure: " + what, payload))
     nf = sum(1 for e in ev2 if any(l.get("failed") for l in e.get("led", [])))
     cov = {"evaluations": points, "distinct_nontrivial": nf,
            "rule": "for every call of the corpus (all methods x crypt_rn/crypt_r/crypt/crypt_ra from NULL and from an "
@@ -739,6 +759,7 @@ def c15(ctx):
                    "non-trivial = an injected failure was actually hit (ledger shows a failed request)",
            "samples": [compact(e) for e in ev2 if any(l.get("failed") for l in e.get("led", []))][:3],
            "exhaustive": True, "states": st, "transitions": tr, "tlc_runs": ctx.tlc_runs,
+           "calls_with_a_granted_huge_page_mapping": nhuge,
            "model_divergences": len(v1["div"]) + len(v2["div"])}
     return "fault_enumeration", cov, ASSUME_COMMON + ["faults are injected at the libc allocator/mapping interface by symbol interposition"]
 
@@ -948,6 +969,12 @@ def judge_gs(ctx, events, tag, cfgev, par=8):
 
 
 def gs_coverage(ctx, vs, events, extra):
+    # a crypt_gensalt* call that kills the process returned neither a setting nor its documented error: besides C13's
+    # "never terminates the process" this breaks the clause of the property under check that says what the call returns
+    if ctx.prop in ("C10", "C11", "C12"):
+        for (p_, what, payload) in list(ctx.violations):
+            if p_ == "C13" and what.startswith("Fault"):
+                ctx.violations.append((ctx.prop, "the call crashed instead of returning a setting or an error: " + what, payload))
     cov = {"states": sum(v["tlc"].get("distinct", 0) for v in vs), "transitions": sum(v["tlc"].get("generated", 0) for v in vs),
            "traces_validated_against_impl": len(vs),
            "samples": [compact(e) for e in events if e.get("e") in vlib.GS][:3],
@@ -980,7 +1007,7 @@ def c10(ctx):
     rng = ctx.rng
     E = cfgev["E"]
     cmds = ["entropy 0 %d" % (ctx.seed % 200 + 1), "hset 0 0 0"]
-    nrs = [None, 0, 2, 3, 8, 15, 16, 20, 32, 64, 65, 256] if quick else [None] + list(range(0, 25)) + [32, 33, 48, 63, 64, 65, 66, 100, 128, 255, 256]
+    nrs = [None, 0, 1, 2, 3, 4, 5, 6, 7, 8, 9, 15, 16, 20, 32, 64, 65, 256] if quick else [None] + list(range(0, 25)) + [32, 33, 48, 63, 64, 65, 66, 100, 128, 255, 256]
     counts = [0, 1, 4, 5, 6, 11, 12, 31, 32, 1000, 5000, 99999, 16777215, 16777216, 999999999, 4294901759, 4294901760, 4294967295,
               2 ** 32, 2 ** 64 - 1] if quick else GS_COUNTS_ALL
     for pfx in GS_PREFIXES:
